@@ -117,3 +117,16 @@ M("roundshape-skew-branch-removed", ["C02", "C06"], "round shapes decomposed in 
 M("subpath-imul-off-by-one", ["C02"], "Subpath.__imul__ misses its last segment",
   ("    def __imul__(self, other):\n        if isinstance(other, str):\n            other = Matrix(other)\n        if isinstance(other, Matrix):\n            for e in self:\n                e *= other\n        return self\n\n    def __mul__(self, other):\n        if isinstance(other, (Matrix, str)):\n            n = copy(self)\n            n *= other\n            return n\n        return NotImplemented\n\n    __rmul__ = __mul__\n\n    def __iter__(self):",
    "    def __imul__(self, other):\n        if isinstance(other, str):\n            other = Matrix(other)\n        if isinstance(other, Matrix):\n            for e in list(self)[:-1]:\n                e *= other\n        return self\n\n    def __mul__(self, other):\n        if isinstance(other, (Matrix, str)):\n            n = copy(self)\n            n *= other\n            return n\n        return NotImplemented\n\n    __rmul__ = __mul__\n\n    def __iter__(self):"))
+
+# ---- arc to Bezier (C19) ---------------------------------------------------------------------------------
+M("cubic-alpha-half-slice", ["C19"], "alpha uses tan(t_slice) instead of tan(t_slice/2)",
+  ("            alpha = sin(t_slice) * (sqrt(4 + 3 * pow(tan(t_slice / 2.0), 2)) - 1) / 3.0", "            alpha = sin(t_slice) * (sqrt(4 + 3 * pow(tan(t_slice), 2)) - 1) / 3.0"))
+M("cubic-last-end-not-snapped", ["C19"], "last curve ends at the computed point instead of the arc's end",
+  ("            p_end = (p2En2x, p2En2y)\n            if i == arc_required - 1:\n                p_end = self.end\n", "            p_end = (p2En2x, p2En2y)\n"))
+M("quad-alpha-constant", ["C19"], "quad control distance uses cos(t_slice/2)",
+  ("            alpha = (4.0 - cos(t_slice)) / 3.0", "            alpha = (4.0 - cos(t_slice / 2.0)) / 3.0"))
+M("quad-mid-t-wrong", ["C19"], "quad control placed at the slice end angle", ("            mid_t = (next_t + current_t) / 2", "            mid_t = next_t"))
+M("approx-sweep-limit-degrees", ["C19"], "approximate_arcs_with_cubics counts slices from a too large limit",
+  ("        sweep_limit = tau * error\n        for s in range(len(self) - 1, -1, -1):\n            segment = self[s]\n            if isinstance(segment, Arc):\n                arc_required = int(ceil(abs(segment.sweep) / sweep_limit))\n                self[s : s + 1] = list(segment.as_cubic_curves(arc_required))",
+   "        sweep_limit = tau * error * 4\n        for s in range(len(self) - 1, -1, -1):\n            segment = self[s]\n            if isinstance(segment, Arc):\n                arc_required = int(ceil(abs(segment.sweep) / sweep_limit))\n                self[s : s + 1] = list(segment.as_cubic_curves(arc_required))"))
+M("cubic-ignores-negative-sweep", ["C19"], "cubic chain built from abs(sweep)", ("        t_slice = self.sweep / float(arc_required)\n\n        theta = self.get_rotation()", "        t_slice = abs(self.sweep) / float(arc_required)\n\n        theta = self.get_rotation()"))
